@@ -44,6 +44,23 @@ def ref_challenge(tau, stream):
     return c
 
 
+def gamma1_endpoint_pairs(rng, p, want):
+    """(seed, nonce, which) with a coefficient equal to +gamma1 resp. -(gamma1-1) in ExpandMask(seed, nonce)"""
+    seed = bytes(rng.randrange(256) for _ in range(64))
+    out, need = [], {"plus-gamma1": want, "minus-gamma1-plus-1": want}
+    full = (1 << p.zbits) - 1
+    start = rng.randrange(65536)
+    for k in range(65536):
+        nonce = (start + k) % 65536
+        vals = bitunpack(shake256(seed + nonce.to_bytes(2, "little"), p.polyz), p.zbits, 256)
+        for which, v in (("plus-gamma1", 0), ("minus-gamma1-plus-1", full)):
+            if need[which] and v in vals:
+                out.append((seed, nonce, which)); need[which] -= 1
+        if not any(need.values()):
+            break
+    return out
+
+
 TBL4 = [sum(1 for t in (b & 15, b >> 4) if t < 9) for b in range(256)]
 
 
@@ -96,6 +113,10 @@ def gen(tier, rng):
             # SHAKE-256 blocks yield fewer than 256 coefficients, so that a third block is squeezed (about 1 pair in 50 000)
             for seed, nonce in tb_pairs:
                 out.append(Case("uniform_eta", cp, [seed, nonce], ["in_domain", "seeded", "third-block"]))
+        # range endpoints of the mask: a stream field of all zeros gives +gamma1, all ones gives -(gamma1-1); (seed, nonce) pairs
+        # whose stream contains such a field are found by search (about 1 polynomial in 2^10..2^12)
+        for seed, nonce, what in gamma1_endpoint_pairs(rng, p, 1 if tier == "quick" else 4):
+            out.append(Case("uniform_gamma1", cp, [seed, nonce], ["in_domain", "seeded", "endpoint-" + what]))
         for nonce in (0, 1, 255, 256, 0xFFFF, rng.randrange(65536)):
             seed = bytes(rng.randrange(256) for _ in range(64))
             out.append(Case("uniform_eta", cp, [seed, nonce], ["in_domain", "seeded"]))
@@ -145,6 +166,31 @@ def gen(tier, rng):
         # nonce arithmetic edges: L*nonce + i overflows u16 -> panic in the checked build (modelled), wraps in release
         out.append(Case("l_uniform_gamma1", lv, [bytes(64), 65535 // p.L + 1], ["overflow"], skip_release=True))
     return out
+
+
+def extra(rep, cov, tier, rng):
+    """Counter wrap: the specification encodes the ExpandMask counter L*kappa+i in TWO bytes; where the product passes 65535 the
+    checked build panics (overflow, modelled) and the unchecked builds must give ExpandMask with the counter reduced mod 2^16."""
+    from dlib import crate
+    n = 0
+    for lv in LEVELS:
+        p = Par(lv)
+        for kappa in (65535 // p.L + 1, 65536 // p.L + 7, 65535, rng.randrange(65536 // p.L + 1, 65536)):
+            seed = bytes(rng.randrange(256) for _ in range(64))
+            r = crate([("l_uniform_gamma1", lv, [seed, kappa])])[0]
+            n += 1
+            if r is None:
+                continue     # an unchecked build that panics here is not a wrong value
+            for i in range(p.L):
+                ctr = (p.L * kappa + i) % 65536
+                exp = [p.g1 - v for v in bitunpack(shake256(seed + ctr.to_bytes(2, "little"), p.polyz), p.zbits, 256)]
+                if r[0][256 * i:256 * (i + 1)] != exp:
+                    rep.violation("l_uniform_gamma1/%s (release build), kappa = %d: component %d is not ExpandMask with the two-byte counter (L*kappa+%d) mod 2^16 = %d"
+                                  % (lv, kappa, i, i, ctr),
+                                  {"cases": [{"fn": "l_uniform_gamma1", "copy": lv, "args": ["x" + seed.hex(), str(kappa)], "profile": "release"}]}, True)
+                    break
+    cov["counter_wrap_cases_release"] = n
+    cov["evaluations"] = cov.get("evaluations", 0) + n
 
 
 def nontrivial(c, out):
